@@ -271,10 +271,19 @@ func (leth) Gen(rng *rand.Rand, tier string) []Case {
 		}
 	}
 	// 802.3 length boundary: payloads of 1499..1537 bytes under a length field
-	for _, n := range []int{1499, 1500, 1501, 1535, 1536, 1537} {
+	for _, n := range []int{1498, 1499, 1500, 1501, 1502, 1533, 1534, 1535, 1536, 1537, 1538} {
 		spec := fmt.Sprintf("%s.%s.0.0", mac(false), mac(false))
 		add("tag:length-boundary", "rtn:"+spec+","+hx(lnRandBytes(rng, n)))
 		add("tag:length-boundary", "new:"+spec+",111,"+hx(lnRandBytes(rng, n)))
+		// FixLengths off: the Length field as given (equal to, one below and one above the payload length)
+		for _, L := range []int{n - 1, n, n + 1} {
+			specL := fmt.Sprintf("%s.%s.0.%d", mac(false), mac(false), L)
+			add("tag:length-boundary", "new:"+specL+",0"+fmt.Sprint(rng.Intn(2))+fmt.Sprint(rng.Intn(3))+","+hx(lnRandBytes(rng, n)))
+		}
+		// decode side: a frame whose type/length field is n over exactly n, n-1 and n+1 payload bytes
+		for _, m := range []int{n - 1, n, n + 1} {
+			add("tag:length-boundary", "dec:"+hx(frame(n, lnRandBytes(rng, m))))
+		}
 		spec2 := fmt.Sprintf("%s.%s.2048.0", mac(false), mac(false))
 		add("tag:length-boundary", "rtn:"+spec2+","+hx(lnRandBytes(rng, n)))
 	}
